@@ -6,6 +6,8 @@ package gf2p16
 import (
 	"encoding/json"
 	"os"
+	"runtime/debug"
+	"syscall"
 
 	rt "github.com/akalin/gopar/internal/zzverifrt"
 )
@@ -82,6 +84,71 @@ func VerifHarness_C09_asm_replay() {
 	}
 	rt.Assert(ok, "out word == c * in word (native)")
 	rt.Assert(inOK, "input unchanged (native)")
+
+	// Reads outside a buffer leave no trace in a canary: the kernel is run again
+	// on buffers that end (resp. start) at an inaccessible page.
+	if n > 0 {
+		for _, atEnd := range []bool{true, false} {
+			gin, freeIn := guardedBuf(n, atEnd)
+			copy(gin, in0)
+			gout := gin
+			freeOut := func() {}
+			if !same {
+				gout, freeOut = guardedBuf(n, atEnd)
+				copy(gout, out0)
+			}
+			fault := runGuarded(func() {
+				switch kernel {
+				case 0:
+					mulByteSliceLEUnsafe(&mulTable[c], gin, gout)
+				case 1:
+					mulAndAddByteSliceLEUnsafe(&mulTable[c], gin, gout)
+				case 2:
+					mulSliceSSSE3Unsafe(&mulTable64[c], gin, gout)
+				default:
+					mulAndAddSliceSSSE3Unsafe(&mulTable64[c], gin, gout)
+				}
+			})
+			rt.Assert(!fault, "kernel touched memory outside the buffers it was given (guard page)")
+			freeIn()
+			freeOut()
+		}
+	}
+}
+
+// guardedBuf returns n bytes that end exactly at (atEnd) or start exactly
+// after an inaccessible page.
+func guardedBuf(n int, atEnd bool) ([]byte, func()) {
+	ps := syscall.Getpagesize()
+	pages := (n + ps - 1) / ps
+	total := (pages + 2) * ps
+	m, err := syscall.Mmap(-1, 0, total, syscall.PROT_READ|syscall.PROT_WRITE, syscall.MAP_ANON|syscall.MAP_PRIVATE)
+	if err != nil {
+		panic(err)
+	}
+	if err := syscall.Mprotect(m[:ps], syscall.PROT_NONE); err != nil {
+		panic(err)
+	}
+	if err := syscall.Mprotect(m[total-ps:], syscall.PROT_NONE); err != nil {
+		panic(err)
+	}
+	start := ps
+	if atEnd {
+		start = total - ps - n
+	}
+	return m[start : start+n : start+n], func() { syscall.Munmap(m) }
+}
+
+func runGuarded(f func()) (fault bool) {
+	old := debug.SetPanicOnFault(true)
+	defer debug.SetPanicOnFault(old)
+	defer func() {
+		if r := recover(); r != nil {
+			fault = true
+		}
+	}()
+	f()
+	return false
 }
 
 // Translator validation of asmsym: the outputs asmsym computes by executing
